@@ -1,4 +1,5 @@
 import Syzgy.Lemmas.Scan
+import Syzgy.Lemmas.Refine
 /-!
 # C01 — document store fidelity (property theorems only; helper lemmas live in `Lemmas/`)
 -/
@@ -19,6 +20,49 @@ theorem span_roundtrip (seq : Nat) (rid : Bytes) (streams : List Stream) (pad : 
 /-- non-vacuity: a concrete record with 2 streams and 3 bytes of padding meets the side conditions -/
 example : Seg.OK (.act 7 [49, 50] [{ id := 0, data := [1, 2, 3] }, { id := 1, data := [9] }] 3) := by
   refine ⟨by decide, by decide, by decide, ?_, by decide, by decide⟩
+  intro s hs
+  simp at hs
+  rcases hs with rfl | rfl <;> exact ⟨by decide, by decide⟩
+
+/-- **The span file refines the abstract store, for every operation sequence.** Starting from any state
+    that satisfies the representation invariant (`Rep`: gap-free chain of well-formed segments, each id
+    active once, index = offsets of the active segments, free map = maximal FREE runs), after any
+    sequence of `WriteRecord` / `RemoveRecord` calls — fresh ids, overwrites, removals of stored and of
+    unknown ids, with space reuse, padding, remainders and file growth wherever the free map sends them —
+    the invariant holds again and the store the file stands for is the fold of the specification
+    (`specStep`: a write binds the id to exactly the streams given, a removal unbinds it, nothing else
+    changes). `FitsAll` is the format's own limit: each record and the grown file fit 32-bit lengths. -/
+theorem store_refines (ops : List Op) (s : SF) (segs : List Seg) (h : Rep s segs) (hf : FitsAll s ops) :
+    ∃ segs', Rep (ops.foldl applyOp s) segs' ∧
+      ∀ r, docOf r segs' = ops.foldl specStep (fun r => docOf r segs) r :=
+  run_refines ops s segs h hf
+
+/-- `ReadRecord` in any reachable state answers what the specification holds: exactly the streams last
+    written under the id, or "record not found" when the id was never written or was removed since -/
+theorem read_is_spec (ops : List Op) (s : SF) (segs : List Seg) (h : Rep s segs) (hf : FitsAll s ops) (rid : Bytes) :
+    match ops.foldl specStep (fun r => docOf r segs) rid with
+    | none => readRecord (ops.foldl applyOp s) rid = .err "record not found"
+    | some st => ∃ sp, readRecord (ops.foldl applyOp s) rid = .ok sp ∧ sp.rid = rid ∧ sp.streams = st :=
+  read_after_run ops s segs h hf rid
+
+/-- no operation on a state that satisfies the invariant panics; the only refusal is the removal of an
+    id that is not stored, and it changes nothing -/
+theorem step_total (s : SF) (segs : List Seg) (h : Rep s segs) (op : Op) (hf : Fits s op) :
+    (∃ m, stepSF s op = .ok m) ∨ (∃ rid, op = .remove rid ∧ docOf rid segs = none ∧ stepSF s op = .err "record not found") := by
+  rcases step_refines s segs h op hf with ⟨m, _, h1, _⟩ | h2
+  · exact Or.inl ⟨m, h1⟩
+  · exact Or.inr h2
+
+/-- a newly created file satisfies the invariant and stands for the store that holds only the header
+    record (the empty id) -/
+theorem new_file_is_rep :
+    ∃ s0, openFile none .createIfNotExists = .ok s0 ∧ Rep s0 [.act 0 [] [] 0] ∧
+      ∀ r, docOf r [.act 0 [] [] 0] = if r = [] then some [] else none :=
+  init_refines
+
+/-- non-vacuity: a concrete write fits a new file, so `FitsAll` is satisfiable from the initial state -/
+example : NewOK 1 [49] [{ id := 0, data := [123, 125] }, { id := 1, data := [0, 0, 128, 63] }] := by
+  refine ⟨by decide, by decide, by decide, ?_, by decide⟩
   intro s hs
   simp at hs
   rcases hs with rfl | rfl <;> exact ⟨by decide, by decide⟩
